@@ -22,6 +22,18 @@ PINS = {
     "reassign_target": "C07:captured_only_as_reassignment_target:internal_error",
     "modify_type_refinement": "C07:modify_str_changes_known_length:internal_error",
 }
+PINS_DYNAMIC_LOOKUP = ("C07:caller_local_shadows_captured_read:wrong_value",
+                       "C07:caller_local_shadows_captured_opassign:wrong_value")
+
+
+def dynamic_lookup_defect_listed():
+    """The rule `caller_local_shadow` (discard histories in which the whole-stack name search would meet another
+    cell than the lexical one) is in force only while that defect is a listed finding; once it is repaired in /repo
+    and un-listed such histories are ordinary test cases."""
+    listed = {f.get("signature") for f in core.load_findings().get("findings", [])}
+    return any(p in listed for p in PINS_DYNAMIC_LOOKUP) or "caller_local_shadow" in os.environ.get("C07_AVOID", "")
+
+
 # development / validation aid: C07_AVOID=all | rule,rule  behaves as if those pinned findings were listed
 _force = os.environ.get("C07_AVOID", "")
 FORCE_AVOID = set(PINS) if _force == "all" else set(x for x in _force.split(",") if x in PINS)
@@ -1036,6 +1048,9 @@ def work_random(item):
         return res
     res["stats"] = model["stats"]
     hz = [h for h in model["hazards"] if not (allow_escaped and h[0] == "opassign_escaped")]
+    if "caller_local_shadow" not in avoid:
+        hz = [h for h in hz if h[0] == "opassign_escaped"]
+    res["hazards_met"] = len(model["hazards"])
     if hz:
         res["verdict"] = "avoided"
         res["hazards"] = sorted(set(h[0] for h in hz))
@@ -1071,6 +1086,20 @@ def work_random(item):
     return res
 
 
+def root_cause_hint(res):
+    """Informational only (coverage): which pinned defect the message of a random deviation points to."""
+    d = str(res["witness"].get("detail") or "")
+    if "has not been mapped" in d:
+        return "B opassign_captured_after_owner_returned"
+    if "load before store" in d:
+        return "C/D capture list misses a name (dot-chain call argument / reassignment target)"
+    if "is not in scope" in d:
+        return "E modify_type_refinement"
+    if res["deviation"] == "wrong_value" and res.get("step_kind") == "is_closure":
+        return "D reassignment target not captured (is_closure false)"
+    return "unclassified: " + (d[:80] or res["deviation"])
+
+
 def work(item):
     if item[0] == "cat":
         return work_catalogue(item[1])
@@ -1081,7 +1110,8 @@ def work(item):
 
 def run(ctx):
     out = core.Outcome()
-    avoid = tuple(sorted(set(r for r, sig in PINS.items() if sig in ctx.known) | FORCE_AVOID))
+    avoid = tuple(sorted(set(r for r, sig in PINS.items() if sig in ctx.known) | FORCE_AVOID |
+                         ({"caller_local_shadow"} if dynamic_lookup_defect_listed() else set())))
     items = [("cat", c) for c in CATALOGUE]
     nrand = ctx.n(1500, 30000)
     base = ctx.rng("histories").randrange(1 << 40)
@@ -1161,6 +1191,9 @@ def run(ctx):
             if res.get("sample") and len(out.samples) < 3:
                 out.samples.append(res["sample"])
         else:
+            cause = root_cause_hint(res)
+            cov.setdefault("random_deviations_by_root_cause_hint", {})
+            cov["random_deviations_by_root_cause_hint"][cause] = cov["random_deviations_by_root_cause_hint"].get(cause, 0) + 1
             out.violations.append(core.Violation(
                 "C07:history:%s:%s" % (res["step_kind"], res["deviation"]),
                 "history (seed %s) deviates from the cell model at step %s (%s): %s" % (
@@ -1177,8 +1210,9 @@ def run(ctx):
         "modify_type_refinement": "str variables of functions/methods are declared with an explicit `: str` type and `int?` "
                                   "variables are module-level only (a `modify` whose value has a narrower static type than the "
                                   "variable leaks the dependency)"}
-    cov["avoidance_rules_in_force"] = ["caller_local_shadow"] + list(avoid)
-    cov["avoidance_rules_inactive_because_finding_not_listed"] = sorted(set(PINS) - set(avoid))
+    cov["avoidance_rules_in_force"] = list(avoid)
+    cov["avoidance_rules_inactive_because_finding_not_listed"] = sorted((set(PINS) | {"caller_local_shadow"}) - set(avoid))
+    cov["unique_names_everywhere"] = True
     if MUTATION:
         cov["model_mutation"] = MUTATION
     out.coverage.update(cov)
